@@ -22,6 +22,7 @@
                     (side conditions of the conversion theorem C08). *)
 From GT Require Import Base.Prelude Base.Sort Model.DFA Model.NFA Model.DFAOps Model.Minimize Model.Lang Model.Regexp
   Model.CFG Model.Chomsky Model.CYK Model.Simulate Model.Checkers Decide.DFAEquiv.
+From GT Require Model.Checkers2 Proofs.Checkers2Proofs.
 From GT Require Import Proofs.DFAOpsProofs Proofs.CheckersProofs.
 From Coq Require Import Permutation.
 
@@ -89,6 +90,18 @@ Theorem C13_chomsky : forall (ordV : list nat -> list nat) (stream : list nat) (
   to_chomsky ordV stream G = Some (G1, rest) -> check_chomsky ordV stream G G1 phase (gS G1) n = true.
 Proof. exact own_chomsky_accepted. Qed.
 
+(* ---- language from a reference file / given language: the reference object itself (or any object with the same bounded
+   language) is accepted ---- *)
+Theorem C13_from_file : forall (n : nat) (P : word -> Prop) (L1 L2 : list word),
+  Checkers2Proofs.bounded_lang n P L1 -> Checkers2Proofs.bounded_lang n P L2 -> Checkers2.check_language_from_file L1 L2 = true.
+Proof.
+  intros n P L1 L2 H1 H2. apply (Checkers2Proofs.from_file_complete n P P L1 L2 H1 H2). intros w _. tauto.
+Qed.
+
+Theorem C13_given_language : forall (pick : picker word) (L words : list word), picker_ok pick ->
+  (forall w, In w L <-> In w words) -> Checkers2.given_language_ok pick L words = true.
+Proof. intros pick L words Hp Hq. apply (Checkers2Proofs.given_language_ok_spec pick L words Hp). exact Hq. Qed.
+
 Print Assumptions C13_product.
 Print Assumptions C13_complement.
 Print Assumptions C13_complement_needs_unique_keys.
@@ -102,3 +115,5 @@ Print Assumptions C13_cyk_matrix.
 Print Assumptions C13_derivation.
 Print Assumptions C13_derivation_any.
 Print Assumptions C13_chomsky.
+Print Assumptions C13_from_file.
+Print Assumptions C13_given_language.
